@@ -1261,7 +1261,7 @@ static void DecodeALU8(Word Code) {
     if (!as_strcasecmp(pDestArg->str.p_str, "HL")) {
         if (Code != 2) {
             WrError(ErrNum_InvAddrMode);
-        } else {
+        } else if (ChkMinCPU(CPUZ380)) {
             OpSize = 1;
             DecodeAdr(pSrcArg);
             switch (AdrMode) {
@@ -1280,7 +1280,7 @@ static void DecodeALU8(Word Code) {
     } else if (!as_strcasecmp(pDestArg->str.p_str, "SP")) {
         if (Code != 2) {
             WrError(ErrNum_InvAddrMode);
-        } else {
+        } else if (ChkMinCPU(CPUZ380)) {
             OpSize = 1;
             DecodeAdr(pSrcArg);
             switch (AdrMode) {
